@@ -424,7 +424,10 @@ class Parser:
 
         if dest is OpCode.PUSH:
             code_gen.push(value)
-        elif value is not dest:
+        elif move_inst is OpCode.MOVEQ or value is not dest:
+            # Only a move of a variable or register onto itself is left out;
+            # a constant can be the very same object as the destination's
+            # name (a one-character string, for instance).
             code_gen.add_instruction(move_inst, value, dest)
 
         return self.next_token()
